@@ -6,10 +6,14 @@ pub mod c02;
 pub mod c03;
 pub mod c04;
 pub mod c05;
+pub mod c06;
 pub mod c07;
+pub mod c08;
 pub mod c09;
 pub mod c10;
 pub mod c11;
+pub mod c14;
+pub mod c16;
 pub mod common;
 
 pub fn run(prop: &str, tier: Tier, seed: u64) -> i32 {
@@ -19,10 +23,14 @@ pub fn run(prop: &str, tier: Tier, seed: u64) -> i32 {
         "C03" => c03::run(tier, seed),
         "C04" => c04::run(tier, seed),
         "C05" => c05::run(tier, seed),
+        "C06" => c06::run(tier, seed),
         "C07" => c07::run(tier, seed),
+        "C08" => c08::run(tier, seed),
         "C09" => c09::run(tier, seed),
         "C10" => c10::run(tier, seed),
         "C11" => c11::run(tier, seed),
+        "C14" => c14::run(tier, seed),
+        "C16" => c16::run(tier, seed),
         _ => {
             eprintln!("unknown property {prop}");
             2
